@@ -251,6 +251,16 @@ Definition trace (st : lstate) : list fpath := map ev_file (events st).
 Definition key_of (k : key) (g : fpath) : Prop :=
   exists f i, reachable fs E f /\ imp_of f i /\ i_path i = k /\ target fs f i = Some g.
 
+Definition info_ok (info : minfo) : Prop :=
+  exists m', find_file fs (mi_file info) = Some m' /\ mi_exports info = pub_names m'.
+
+(* compile-time name sets against a grant function G, for the imports `imps` *)
+Definition names_spec (G : import -> list ident) (imps : list import) (acc : names) : Prop :=
+  (forall q, In q (fst acc) <-> exists j, In j imps /\ granted_qualifier j = Some q) /\
+  (forall n, In n (snd acc) <-> exists j, In j imps /\ In n (G j)).
+
+Local Notation ev_ok_mod := (ModulesSpec.ev_ok_mod fs).
+
 Record inv (st : lstate) : Prop := {
   v_nodup : NoDup (stack st);
   v_stack : forall k, In k (stack st) -> has_key k (loaded st);
@@ -259,7 +269,9 @@ Record inv (st : lstate) : Prop := {
   v_tnodup : NoDup (trace st);
   v_towner : forall g, In g (trace st) ->
      exists k info, lookup k (loaded st) = Some info /\ mi_file info = g /\ ~ In k (stack st);
-  v_post : postorder fs (trace st)
+  v_post : postorder fs (trace st);
+  v_info : forall k info, lookup k (loaded st) = Some info -> info_ok info;
+  v_evs : forall ev, In ev (events st) -> ev_ok_mod ev
 }.
 
 Definition mono (st st' : lstate) : Prop :=
@@ -268,10 +280,14 @@ Definition mono (st st' : lstate) : Prop :=
 Definition frame (st st' : lstate) : Prop :=
   inv st' /\ stack st' = stack st /\ base st' = base st /\ mono st st' /\ (exists ext, trace st' = trace st ++ ext).
 
-Definition vpost {A} (cur : fpath) (i : import) (st : lstate) (r : res (lstate * A)) : Prop :=
+(* what a successful load of import i written in file cur guarantees *)
+Definition loaded_as (cur : fpath) (i : import) (st' : lstate) : Prop :=
+  exists g info, target fs cur i = Some g /\ In g (trace st') /\
+                 lookup (i_path i) (loaded st') = Some info /\ mi_file info = g.
+
+Definition vpost (cur : fpath) (i : import) (st : lstate) (r : res (lstate * lres)) : Prop :=
   match r with
-  | Ok (st', _) => frame st st' /\
-       (is_std (i_path i) = false -> exists g, target fs cur i = Some g /\ In g (trace st'))
+  | Ok (st', lr) => frame st st' /\ lr = lres_of i /\ (is_std (i_path i) = false -> loaded_as cur i st')
   | _ => True
   end.
 
@@ -294,6 +310,12 @@ Proof.
   - exists (e1 ++ e2). rewrite He2, He1, app_assoc; reflexivity.
 Qed.
 
+Lemma loaded_as_frame : forall cur i a b, frame a b -> loaded_as cur i a -> loaded_as cur i b.
+Proof.
+  intros cur i a b (_ & _ & _ & Hm & [ext He]) (g & info & Ht & Hin & Hl & Hf).
+  exists g, info. split; [exact Ht|]. split; [rewrite He; apply in_or_app; left; exact Hin|]. auto.
+Qed.
+
 Lemma imp_of_file : forall f m i, find_file fs f = Some m -> In i (m_imports m) ->
   is_std (i_path i) = false -> imp_of f i.
 Proof. intros f m i Hf Hi Hs. exists m; auto. Qed.
@@ -301,46 +323,95 @@ Proof. intros f m i Hf Hi Hs. exists m; auto. Qed.
 Lemma target_nonstd : forall f i g, target fs f i = Some g -> is_std (i_path i) = false.
 Proof. unfold target; intros f i g. destruct (is_std (i_path i)); [discriminate | reflexivity]. Qed.
 
+(* ---- name sets *)
+Lemma names_spec_nil : forall G, names_spec G [] ([], []).
+Proof. intro G; split; intro x; cbn; (split; [intros [] | intros (j & [] & _)]). Qed.
+
+Lemma names_spec_snoc : forall G done acc j A' K',
+  names_spec G done acc ->
+  (forall q, In q A' <-> In q (fst acc) \/ granted_qualifier j = Some q) ->
+  (forall n, In n K' <-> In n (snd acc) \/ In n (G j)) ->
+  names_spec G (done ++ [j]) (A', K').
+Proof.
+  intros G done acc j A' K' [H1 H2] HA HK. split; cbn [fst snd].
+  - intro q. rewrite HA, H1. split.
+    + intros [(x & Hx & Hq)|Hq]; [exists x | exists j]; split; auto; apply in_or_app; [left | right; left]; auto.
+    + intros (x & Hx & Hq). apply in_app_or in Hx as [Hx|[<-|[]]]; [left; eauto | right; exact Hq].
+  - intro n. rewrite HK, H2. split.
+    + intros [(x & Hx & Hq)|Hq]; [exists x | exists j]; split; auto; apply in_or_app; [left | right; left]; auto.
+    + intros (x & Hx & Hq). apply in_app_or in Hx as [Hx|[<-|[]]]; [left; eauto | right; exact Hq].
+Qed.
+
+Lemma contrib_mod_spec : forall file done acc j ld info g mg,
+  names_spec (granted_bare_nested fs file) done acc ->
+  lookup (i_path j) ld = Some info -> mi_exports info = pub_names mg ->
+  target fs file j = Some g -> find_file fs g = Some mg ->
+  names_spec (granted_bare_nested fs file) (done ++ [j]) (contrib_mod acc j (lres_of j) ld).
+Proof.
+  intros file done acc j ld info g mg Hs Hl He Ht Hg.
+  unfold contrib_mod. rewrite Hl, He.
+  assert (HG : granted_bare_nested fs file j =
+               match i_form j with FModule | FWildcard => pub_names mg | FSymbols l => [hd 0 l] | FAlias _ => [] end).
+  { unfold granted_bare_nested. rewrite Ht, Hg. reflexivity. }
+  unfold lres_of.
+  destruct (i_form j) as [|a|l|] eqn:Ef; cbn [add_lres fst snd];
+    apply (names_spec_snoc _ done acc j _ _ Hs); unfold granted_qualifier; rewrite ?Ef, ?HG;
+    intro x; cbn [In]; rewrite ?in_app_iff; cbn [In].
+  - split; [intros [<-|H']; auto | intros [H'|H']; [auto | inversion H'; auto]].
+  - tauto.
+  - split; [intros [<-|H']; auto | intros [H'|H']; [auto | inversion H'; auto]].
+  - tauto.
+  - split; [auto | intros [H'|H']; [auto | discriminate]].
+  - tauto.
+  - split; [intros [<-|H']; auto | intros [H'|H']; [auto | inversion H'; auto]].
+  - tauto.
+Qed.
+
 Lemma go_mod_v : forall ld file m, vgood ld -> reachable fs E file -> find_file fs file = Some m ->
-  forall imps s acc, incl imps (m_imports m) -> inv s -> base s = dir_of file ->
+  forall imps done s acc, done ++ imps = m_imports m -> inv s -> base s = dir_of file ->
+  (forall j, In j done -> is_std (i_path j) = false -> loaded_as file j s) ->
+  (no_std_imports m -> names_spec (granted_bare_nested fs file) done acc) ->
   match go_mod ld imps s acc with
-  | Ok (s2, _) => frame s s2 /\
-      (forall j, In j imps -> is_std (i_path j) = false -> exists g, target fs file j = Some g /\ In g (trace s2))
+  | Ok (s2, acc2) => frame s s2 /\
+      (forall j, In j (m_imports m) -> is_std (i_path j) = false -> loaded_as file j s2) /\
+      (no_std_imports m -> names_spec (granted_bare_nested fs file) (m_imports m) acc2)
   | _ => True
   end.
 Proof.
-  intros ld file m Hld Hr Hm imps; induction imps as [|j r IH]; intros s acc Hincl Hinv Hb; cbn.
-  - split; [apply frame_refl; exact Hinv | intros j []].
-  - pose proof (Hld file m j s Hr Hm (Hincl j (or_introl eq_refl)) Hinv Hb) as Hj.
+  intros ld file m Hld Hr Hm imps; induction imps as [|j r IH]; intros done s acc Hsplit Hinv Hb Hdone Hacc; cbn.
+  - rewrite app_nil_r in Hsplit; subst done. split; [apply frame_refl; exact Hinv | auto].
+  - assert (Hjin : In j (m_imports m)) by (rewrite <- Hsplit; apply in_or_app; right; left; reflexivity).
+    pose proof (Hld file m j s Hr Hm Hjin Hinv Hb) as Hj.
     destruct (ld j s) as [[s' lr]| |]; cbn in Hj; auto.
-    destruct Hj as [Hfr Htj]. pose proof Hfr as (Hi' & Hs' & Hb' & Hm' & He').
+    destruct Hj as (Hfr & -> & Htj). pose proof Hfr as (Hi' & Hs' & Hb' & Hm' & He').
     assert (Hb2 : base s' = dir_of file) by congruence.
-    pose proof (IH s' (contrib_mod acc j lr (loaded s')) (fun x Hx => Hincl x (or_intror Hx)) Hi' Hb2) as Hrest.
-    destruct (go_mod ld r s' (contrib_mod acc j lr (loaded s'))) as [[s2 a2]| |]; auto.
-    destruct Hrest as [Hfr2 Hall]. split; [eapply frame_trans; eauto|].
-    intros x [<-|Hx] Hstd; [| apply Hall; auto].
-    destruct (Htj Hstd) as [g [Hg Hin]]. exists g; split; [exact Hg|].
-    destruct Hfr2 as (_ & _ & _ & _ & [ext Hext]). rewrite Hext. apply in_or_app; left; exact Hin.
+    assert (Hsplit2 : (done ++ [j]) ++ r = m_imports m) by (rewrite <- app_assoc; exact Hsplit).
+    assert (Hdone2 : forall x, In x (done ++ [j]) -> is_std (i_path x) = false -> loaded_as file x s').
+    { intros x Hx Hstd. apply in_app_or in Hx as [Hx|[<-|[]]].
+      - eapply loaded_as_frame; eauto.
+      - auto. }
+    assert (Hacc2 : no_std_imports m -> names_spec (granted_bare_nested fs file) (done ++ [j])
+                                                   (contrib_mod acc j (lres_of j) (loaded s'))).
+    { intro Hns. destruct (Htj (Hns j Hjin)) as (g & info & Ht & _ & Hl & Hfi).
+      destruct (v_info _ Hi' _ _ Hl) as (mg & Hmg & Hex). rewrite Hfi in Hmg.
+      eapply contrib_mod_spec; eauto. }
+    pose proof (IH (done ++ [j]) s' (contrib_mod acc j (lres_of j) (loaded s')) Hsplit2 Hi' Hb2 Hdone2 Hacc2) as Hrest.
+    destruct (go_mod ld r s' (contrib_mod acc j (lres_of j) (loaded s'))) as [[s2 a2]| |]; auto.
+    destruct Hrest as (Hfr2 & Hall & Hnames). split; [eapply frame_trans; eauto | auto].
 Qed.
 
-Lemma compile_v : forall ld cur mc i file m st,
-  vgood ld -> reachable fs E cur -> find_file fs cur = Some mc -> In i (m_imports mc) ->
-  is_std (i_path i) = false -> inv st -> base st = dir_of cur ->
+Lemma push_inv : forall cur mc i file m st,
+  reachable fs E cur -> find_file fs cur = Some mc -> In i (m_imports mc) ->
+  is_std (i_path i) = false -> inv st ->
   ~ In (i_path i) (stack st) -> lookup (i_path i) (loaded st) = None ->
   target fs cur i = Some file -> find_file fs file = Some m ->
-  vpost cur i st (compile ld file (i_path i) None i m st).
+  inv {| loaded := (i_path i, {| mi_file := file; mi_exports := pub_names m; mi_name := last_seg (i_path i) |}) :: loaded st;
+         stack := i_path i :: stack st; base := dir_of file; ns := ns st; events := events st |}.
 Proof.
-  intros ld cur mc i file m st Hld Hr Hmc Hi Hstd Hinv Hb Hns Hnl Ht Hm.
-  unfold compile.
-  set (info := {| mi_file := file; mi_exports := pub_names m; mi_name := _ |}).
-  set (st1 := {| loaded := (i_path i, info) :: loaded st; stack := i_path i :: stack st;
-                 base := dir_of file; ns := ns st; events := events st |}).
+  intros cur mc i file m st Hr Hmc Hi Hstd Hinv Hns Hnl Ht Hm.
   pose proof (imp_of_file cur mc i Hmc Hi Hstd) as Himp.
-  assert (Hedge : edge fs cur file) by (exists mc, i; auto).
-  assert (Hrf : reachable fs E file) by (eapply r_step; eauto).
   assert (Hkf : key_of (i_path i) file) by (exists cur, i; auto).
-  assert (Hinv1 : inv st1).
-  { unfold st1; split; cbn.
+  split; cbn.
     - constructor; [exact Hns | apply (v_nodup _ Hinv)].
     - intros k [<-|Hk]; unfold has_key.
       + rewrite lookup_cons_eq; discriminate.
@@ -356,10 +427,33 @@ Proof.
       exists k, inf. assert (k <> i_path i) by (intro; subst k; congruence).
       split; [apply key_eqb_neq in H; rewrite H; exact Hl|]. split; [exact Hfi|].
       intros [Heq|Hin]; [apply key_eqb_neq in H; congruence | contradiction].
-    - apply (v_post _ Hinv). }
-  pose proof (go_mod_v ld file m Hld Hrf Hm (m_imports m) st1 ([], []) (fun x Hx => Hx) Hinv1 eq_refl) as Hg.
+    - apply (v_post _ Hinv).
+    - intros k inf. destruct (key_eqb k (i_path i)) eqn:Ek.
+      + intro H; inversion H; subst inf. exists m; auto.
+      + apply (v_info _ Hinv).
+    - apply (v_evs _ Hinv). Qed.
+
+Lemma compile_v : forall ld cur mc i file m st,
+  vgood ld -> reachable fs E cur -> find_file fs cur = Some mc -> In i (m_imports mc) ->
+  is_std (i_path i) = false -> i_path i <> [] -> inv st -> base st = dir_of cur ->
+  ~ In (i_path i) (stack st) -> lookup (i_path i) (loaded st) = None ->
+  target fs cur i = Some file -> find_file fs file = Some m ->
+  vpost cur i st (compile ld file (i_path i) None i m st).
+Proof.
+  intros ld cur mc i file m st Hld Hr Hmc Hi Hstd Hne Hinv Hb Hns Hnl Ht Hm.
+  unfold compile.
+  set (info := {| mi_file := file; mi_exports := pub_names m; mi_name := _ |}).
+  set (st1 := {| loaded := (i_path i, info) :: loaded st; stack := i_path i :: stack st;
+                 base := dir_of file; ns := ns st; events := events st |}).
+  pose proof (imp_of_file cur mc i Hmc Hi Hstd) as Himp.
+  assert (Hedge : edge fs cur file) by (exists mc, i; auto).
+  assert (Hrf : reachable fs E file) by (eapply r_step; eauto).
+  assert (Hkf : key_of (i_path i) file) by (exists cur, i; auto).
+  assert (Hinv1 : inv st1) by exact (push_inv cur mc i file m st Hr Hmc Hi Hstd Hinv Hns Hnl Ht Hm).
+  pose proof (go_mod_v ld file m Hld Hrf Hm (m_imports m) [] st1 ([], []) eq_refl Hinv1 eq_refl
+                (fun j Hj => match Hj with end) (fun _ => names_spec_nil _)) as Hg.
   destruct (go_mod ld (m_imports m) st1 ([], [])) as [[st2 acc]| |]; auto.
-  destruct Hg as [(Hi2 & Hs2 & Hb2 & Hm2 & [ext Hext]) Hall].
+  destruct Hg as ((Hi2 & Hs2 & Hb2 & Hm2 & [ext Hext]) & Hall & Hnames).
   match goal with |- context [bind_exports ?a ?b ?c] => destruct (bind_exports a b c) as [s2|] end; cbn; auto.
   set (ev := {| ev_file := file; ev_key := i_path i; ev_aliases := fst acc; ev_known := _; ev_ns := _ |}).
   set (st' := {| loaded := loaded st2; stack := tl (stack st2); base := base st; ns := s2; events := events st2 ++ [ev] |}).
@@ -393,14 +487,21 @@ Proof.
     - rewrite Htr. intros l1 g l2 Heq h Hed.
       apply app_snoc_split in Heq as [(-> & -> & ->)|(l2' & -> & Heq)].
       + destruct Hed as (m' & j & Hm' & Hj & Htj). rewrite Hm in Hm'; inversion Hm'; subst m'.
-        destruct (Hall j Hj (target_nonstd _ _ _ Htj)) as (g' & Hg' & Hin). congruence.
-      + eapply (v_post _ Hi2); eauto. }
+        destruct (Hall j Hj (target_nonstd _ _ _ Htj)) as (g' & inf & Hg' & Hin & _). congruence.
+      + eapply (v_post _ Hi2); eauto.
+    - unfold st'; cbn. apply (v_info _ Hi2).
+    - unfold st'; cbn. intros e He. apply in_app_or in He as [He|[<-|[]]]; [apply (v_evs _ Hi2); exact He|].
+      split; [exact Hne|]. cbn. intros m' Hm' Hnostd. rewrite Hm in Hm'; inversion Hm'; subst m'.
+      destruct (Hnames Hnostd) as [HA HK]. split; [exact HA|].
+      intro n. rewrite in_app_iff, HK. reflexivity. }
   split.
   - split; [exact Hinv'|]. split; [exact Hstk|]. split; [reflexivity|]. split.
     + intros k inf Hl. unfold st'; cbn. apply Hm2. cbn.
       destruct (key_eqb k (i_path i)) eqn:Ek; [apply key_eqb_eq in Ek; subst; congruence | exact Hl].
     + exists (ext ++ [file]). change (trace st' = trace st ++ ext ++ [file]). rewrite Htr, Hext. unfold st1, trace; cbn. rewrite app_assoc; reflexivity.
-  - intros _. exists file; split; [exact Ht|]. change (In file (trace st')). rewrite Htr. apply in_or_app; right; left; reflexivity.
+  - split; [reflexivity|]. intros _. exists file, info. split; [exact Ht|].
+    split; [change (In file (trace st')); rewrite Htr; apply in_or_app; right; left; reflexivity|].
+    split; [exact Hlp | reflexivity].
 Qed.
 
 Lemma load_step_v : forall ld, vgood ld -> vgood (load_step fs ld).
@@ -408,7 +509,7 @@ Proof.
   intros ld Hld cur mc i st Hr Hmc Hi Hinv Hb. unfold load_step. cbv zeta.
   remember (i_path i) as p eqn:Ep in |- *. symmetry in Ep. destruct p as [|x p']; [exact I|].
   destruct (is_std (x :: p')) eqn:Estd.
-  { cbn. split; [apply frame_refl; exact Hinv|]. rewrite Ep, Estd; discriminate. }
+  { cbn. split; [apply frame_refl; exact Hinv|]. split; [reflexivity|]. rewrite Ep, Estd; discriminate. }
   assert (Hstd : is_std (i_path i) = false) by (rewrite Ep; exact Estd).
   pose proof (imp_of_file cur mc i Hmc Hi Hstd) as Himp.
   destruct (mem_key (x :: p') (stack st)) eqn:Emem; [exact I|].
@@ -420,16 +521,19 @@ Proof.
     + split; [exact Hinv'|]. split; [reflexivity|]. split; [reflexivity|]. split.
       * intros k inf Hk; exact Hk.
       * exists []; rewrite app_nil_r; reflexivity.
-    + intros _. destruct (v_key _ Hinv _ _ El) as (f' & i' & Hr' & Himp' & Hp' & Ht').
-      exists (mi_file info). split.
+    + split; [reflexivity|].
+      intros _. destruct (v_key _ Hinv _ _ El) as (f' & i' & Hr' & Himp' & Hp' & Ht').
+      exists (mi_file info), info. split.
       * rewrite <- Ht'. apply HF; auto. congruence.
-      * destruct (v_done _ Hinv _ _ El) as [Hk|Hk]; [contradiction | exact Hk].
+      * split; [destruct (v_done _ Hinv _ _ El) as [Hk|Hk]; [contradiction | exact Hk]|].
+        split; [rewrite Ep; exact El | reflexivity].
   - rewrite Hb. destruct (resolve_fb fs (dir_of cur) (x :: p')) as [[[file actual] sym]|] eqn:Er; [| exact I].
     rewrite <- Ep in Er. pose proof (HP cur i Himp _ _ _ Er) as ->.
     pose proof Er as Er'. apply resolve_fb_shape in Er' as [[m Hm] [[-> _]|[_ Hbad]]]; [| discriminate].
     rewrite Hm. rewrite <- Ep in *.
     eapply compile_v; eauto.
-    unfold target. rewrite Hstd, Er. reflexivity.
+    + rewrite Ep; discriminate.
+    + unfold target. rewrite Hstd, Er. reflexivity.
 Qed.
 
 Lemma load_v : forall n, vgood (load fs n).
@@ -437,27 +541,75 @@ Proof.
   induction n as [|n IH]; [intros cur m i st _ _ _ _ _; exact I | cbn [load]; apply load_step_v; exact IH].
 Qed.
 
+Lemma contrib_entry_spec : forall done acc orig j ld info g mg acc' orig',
+  names_spec (granted_bare fs E) done acc ->
+  lookup (i_path j) ld = Some info -> mi_exports info = pub_names mg ->
+  target fs E j = Some g -> find_file fs g = Some mg ->
+  (forall l, i_form j = FSymbols l -> l <> []) ->
+  contrib_entry acc orig j (lres_of j) ld = Some (acc', orig') ->
+  names_spec (granted_bare fs E) (done ++ [j]) acc'.
+Proof.
+  intros done acc orig j ld info g mg acc' orig' Hs Hl He Ht Hg Hne.
+  unfold contrib_entry. rewrite Hl, He.
+  assert (HG : granted_bare fs E j =
+               match i_form j with FModule | FWildcard => pub_names mg | FSymbols l => l | FAlias _ => [] end).
+  { unfold granted_bare. rewrite Ht, Hg. reflexivity. }
+  unfold lres_of, granted_qualifier in *.
+  destruct (i_form j) as [|a|l|] eqn:Ef; cbn [add_lres fst snd].
+  - destruct (inter_nonempty (pub_names mg) orig); [discriminate|]. intro H; inversion H; subst acc' orig'.
+    apply (names_spec_snoc _ done acc j _ _ Hs); unfold granted_qualifier; rewrite ?Ef, ?HG; cbn [fst snd];
+      intro x; cbn [In]; rewrite ?in_app_iff.
+    + split; [intros [<-|H']; auto | intros [H'|H']; [auto | inversion H'; auto]].
+    + tauto.
+  - intro H; inversion H; subst acc' orig'.
+    apply (names_spec_snoc _ done acc j _ _ Hs); unfold granted_qualifier; rewrite ?Ef, ?HG; cbn [fst snd];
+      intro x; cbn [In].
+    + split; [intros [<-|H']; auto | intros [H'|H']; [auto | inversion H'; auto]].
+    + tauto.
+  - intro H; inversion H; subst acc' orig'.
+    apply (names_spec_snoc _ done acc j _ _ Hs); unfold granted_qualifier; rewrite ?Ef, ?HG; cbn [fst snd];
+      intro x; cbn [In]; rewrite ?in_app_iff; cbn [In].
+    + split; [auto | intros [H'|H']; [auto | discriminate]].
+    + split; [intros [H'|[<-|H']]; auto | tauto].
+      right. destruct l as [|y l']; [exfalso; eapply Hne; eauto | left; reflexivity].
+  - intro H; inversion H; subst acc' orig'.
+    apply (names_spec_snoc _ done acc j _ _ Hs); unfold granted_qualifier; rewrite ?Ef, ?HG; cbn [fst snd];
+      intro x; cbn [In]; rewrite ?in_app_iff.
+    + split; [intros [<-|H']; auto | intros [H'|H']; [auto | inversion H'; auto]].
+    + tauto.
+Qed.
+
 Lemma entry_go_v : forall n me, find_file fs E = Some me ->
-  forall imps s acc orig, incl imps (m_imports me) -> inv s -> base s = dir_of E ->
+  forall imps done s acc orig, done ++ imps = m_imports me -> inv s -> base s = dir_of E ->
+  (forall j, In j done -> is_std (i_path j) = false -> loaded_as E j s) ->
+  (no_std_imports me -> nonempty_symbols me -> names_spec (granted_bare fs E) done acc) ->
   match entry_go fs n imps s acc orig with
-  | Ok (s2, _) => frame s s2 /\
-      (forall j, In j imps -> is_std (i_path j) = false -> exists g, target fs E j = Some g /\ In g (trace s2))
+  | Ok (s2, acc2) => frame s s2 /\
+      (forall j, In j (m_imports me) -> is_std (i_path j) = false -> loaded_as E j s2) /\
+      (no_std_imports me -> nonempty_symbols me -> names_spec (granted_bare fs E) (m_imports me) acc2)
   | _ => True
   end.
 Proof.
-  intros n me Hme imps; induction imps as [|j r IH]; intros s acc orig Hincl Hinv Hb; cbn.
-  - split; [apply frame_refl; exact Hinv | intros j []].
-  - pose proof (load_v n E me j s (r_refl fs E) Hme (Hincl j (or_introl eq_refl)) Hinv Hb) as Hj.
+  intros n me Hme imps; induction imps as [|j r IH]; intros done s acc orig Hsplit Hinv Hb Hdone Hacc; cbn.
+  - rewrite app_nil_r in Hsplit; subst done. split; [apply frame_refl; exact Hinv | auto].
+  - assert (Hjin : In j (m_imports me)) by (rewrite <- Hsplit; apply in_or_app; right; left; reflexivity).
+    pose proof (load_v n E me j s (r_refl fs E) Hme Hjin Hinv Hb) as Hj.
     destruct (load fs n j s) as [[s' lr]| |]; cbn in Hj; auto.
-    destruct Hj as [Hfr Htj]. pose proof Hfr as (Hi' & Hs' & Hb' & Hm' & He').
-    destruct (contrib_entry acc orig j lr (loaded s')) as [[acc' orig']|]; [| exact I].
+    destruct Hj as (Hfr & -> & Htj). pose proof Hfr as (Hi' & Hs' & Hb' & Hm' & He').
+    destruct (contrib_entry acc orig j (lres_of j) (loaded s')) as [[acc' orig']|] eqn:Ec; [| exact I].
     assert (Hb2 : base s' = dir_of E) by congruence.
-    pose proof (IH s' acc' orig' (fun x Hx => Hincl x (or_intror Hx)) Hi' Hb2) as Hrest.
+    assert (Hsplit2 : (done ++ [j]) ++ r = m_imports me) by (rewrite <- app_assoc; exact Hsplit).
+    assert (Hdone2 : forall x, In x (done ++ [j]) -> is_std (i_path x) = false -> loaded_as E x s').
+    { intros x Hx Hstd. apply in_app_or in Hx as [Hx|[<-|[]]].
+      - eapply loaded_as_frame; eauto.
+      - auto. }
+    assert (Hacc2 : no_std_imports me -> nonempty_symbols me -> names_spec (granted_bare fs E) (done ++ [j]) acc').
+    { intros Hns Hnes. destruct (Htj (Hns j Hjin)) as (g & info & Ht & _ & Hl & Hfi).
+      destruct (v_info _ Hi' _ _ Hl) as (mg & Hmg & Hex). rewrite Hfi in Hmg.
+      eapply contrib_entry_spec; eauto. }
+    pose proof (IH (done ++ [j]) s' acc' orig' Hsplit2 Hi' Hb2 Hdone2 Hacc2) as Hrest.
     destruct (entry_go fs n r s' acc' orig') as [[s2 a2]| |]; auto.
-    destruct Hrest as [Hfr2 Hall]. split; [eapply frame_trans; eauto|].
-    intros x [<-|Hx] Hstd; [| apply Hall; auto].
-    destruct (Htj Hstd) as [g [Hg Hin]]. exists g; split; [exact Hg|].
-    destruct Hfr2 as (_ & _ & _ & _ & [ext Hext]). rewrite Hext. apply in_or_app; left; exact Hin.
+    destruct Hrest as (Hfr2 & Hall & Hnames). split; [eapply frame_trans; eauto | auto].
 Qed.
 
 Lemma reach_edge_plus : forall f h, reachable fs E f -> edge fs f h -> path_plus fs E h.
@@ -495,6 +647,8 @@ Proof.
   - constructor.
   - intros g [].
   - intros l1 g l2 Hl. destruct l1; discriminate.
+  - intros k info Hl; discriminate.
+  - intros ev [].
 Qed.
 
 Lemma run_trace : forall fuel evs, run fs E fuel = Ok evs ->
@@ -503,16 +657,17 @@ Lemma run_trace : forall fuel evs, run fs E fuel = Ok evs ->
 Proof.
   intros fuel evs. unfold run.
   destruct (find_file fs E) as [me|] eqn:Hme; [| discriminate].
-  pose proof (entry_go_v fuel me Hme (m_imports me) (init_state E) ([], []) [] (fun x Hx => Hx) init_inv eq_refl) as Hg.
+  pose proof (entry_go_v fuel me Hme (m_imports me) [] (init_state E) ([], []) [] eq_refl init_inv eq_refl
+                (fun j Hj => match Hj with end) (fun _ _ => names_spec_nil _)) as Hg.
   destruct (entry_go fs fuel (m_imports me) (init_state E) ([], []) []) as [[st acc]| |]; try discriminate.
-  destruct Hg as [(Hinv & _ & _ & _ & _) Hall].
+  destruct Hg as ((Hinv & _ & _ & _ & _) & Hall & _).
   intro Hev; inversion Hev; subst evs; clear Hev. cbv zeta. rewrite map_app. cbn [map ev_file].
   fold (trace st).
   assert (Hpo : postorder fs (trace st ++ [E])).
   { intros l1 g l2 Heq h Hed.
     apply app_snoc_split in Heq as [(-> & -> & ->)|(l2' & -> & Heq)].
     - destruct Hed as (m' & j & Hm' & Hj & Htj). rewrite Hme in Hm'; inversion Hm'; subst m'.
-      destruct (Hall j Hj (target_nonstd _ _ _ Htj)) as (g' & Hg' & Hin). congruence.
+      destruct (Hall j Hj (target_nonstd _ _ _ Htj)) as (g' & inf & Hg' & Hin & _). congruence.
     - eapply (v_post _ Hinv); eauto. }
   assert (Hreach : forall f, In f (trace st) -> exists f', reachable fs E f' /\ edge fs f' f).
   { intros f Hf. destruct (v_towner _ Hinv f Hf) as (k & info & Hl & Hfi & _).
@@ -537,6 +692,230 @@ Lemma run_cycle : forall fuel evs f, run fs E fuel = Ok evs -> reachable fs E f 
 Proof.
   intros fuel evs f Hrun Hr Hp. destruct (run_trace fuel evs Hrun) as (Hnd & Hcov & Hpo & _).
   eapply po_no_cycle; eauto. apply Hcov; exact Hr.
+Qed.
+(* ---- which error: with every import resolvable and selecting pub symbols only, the loader can
+        only fail with CircularDependency (and the entry with SymbolConflict) *)
+Definition bound (g : gname) (s : nsmap) : Prop := ns_get g s <> None.
+Definition nsmono (s s' : nsmap) : Prop := forall g, bound g s -> bound g s'.
+
+Lemma bound_set : forall g g' v s, bound g s -> bound g (ns_set g' v s).
+Proof. unfold bound, ns_set; intros g g' v s H; cbn. destruct (gname_eqb g g'); [discriminate | exact H]. Qed.
+Lemma gname_eqb_refl : forall g, gname_eqb g g = true.
+Proof. destruct g; cbn; rewrite ?N.eqb_refl; reflexivity. Qed.
+Lemma bound_set_same : forall g v s, bound g (ns_set g v s).
+Proof. unfold bound, ns_set; intros; cbn. rewrite gname_eqb_refl; discriminate. Qed.
+
+Lemma write_defs_fold_mono : forall f ds s, nsmono s (fold_left (fun s d => ns_set (GB (d_name d)) (f, d_name d) s) ds s).
+Proof.
+  intros f ds; induction ds as [|d r IH]; intros s g Hg; cbn; [exact Hg|]. apply IH. apply bound_set; exact Hg.
+Qed.
+Lemma write_defs_binds : forall f m s d, In d (m_defs m) -> bound (GB (d_name d)) (write_defs f m s).
+Proof.
+  intros f m s d. unfold write_defs. generalize (m_defs m) s. intros ds; induction ds as [|x r IH]; intros s0 Hd; [destruct Hd|].
+  destruct Hd as [<-|Hd]; cbn.
+  - apply write_defs_fold_mono. apply bound_set_same.
+  - apply IH; exact Hd.
+Qed.
+Lemma pub_names_defs : forall m n, In n (pub_names m) -> exists d, In d (m_defs m) /\ d_name d = n.
+Proof.
+  unfold pub_names; intros m n H. apply in_map_iff in H as (d & Hn & Hd). apply filter_In in Hd as [Hd _]. eauto.
+Qed.
+
+Lemma bind_all_some : forall al bare ex s, (forall n, In n ex -> bound (GB n) s) ->
+  exists s', bind_all al bare ex s = Some s' /\ nsmono s s'.
+Proof.
+  intros al bare ex; induction ex as [|n r IH]; intros s Hb; cbn.
+  - exists s; split; [reflexivity | intros g Hg; exact Hg].
+  - pose proof (Hb n (or_introl eq_refl)) as Hn. unfold bound in Hn.
+    destruct (ns_get (GB n) s) as [v|] eqn:Ev; [| contradiction].
+    set (s1 := if bare then ns_set (GB n) v (ns_set (GQ al n) v s) else ns_set (GQ al n) v s).
+    assert (Hm : nsmono s s1) by (intros g Hg; unfold s1; destruct bare; repeat apply bound_set; exact Hg).
+    destruct (IH s1 (fun x Hx => Hm _ (Hb x (or_intror Hx)))) as (s' & Hs' & Hm').
+    exists s'; split; [exact Hs' | intros g Hg; apply Hm', Hm, Hg].
+Qed.
+Lemma check_all_true : forall ex s, (forall n, In n ex -> bound (GB n) s) -> check_all ex s = true.
+Proof.
+  induction ex as [|n r IH]; intros s Hb; cbn; [reflexivity|].
+  pose proof (Hb n (or_introl eq_refl)) as Hn. unfold bound in Hn.
+  destruct (ns_get (GB n) s); [apply IH; intros x Hx; apply Hb; right; exact Hx | contradiction].
+Qed.
+Lemma mem_id_In : forall n l, In n l -> mem_id n l = true.
+Proof.
+  induction l as [|x l IH]; intro H; [destruct H|].
+  destruct H as [<-|H]; cbn; [rewrite N.eqb_refl; reflexivity | rewrite IH by assumption; apply orb_true_r].
+Qed.
+Lemma check_syms_true : forall syms ex s, (forall n, In n syms -> In n ex /\ bound (GB n) s) -> check_syms syms ex s = true.
+Proof.
+  induction syms as [|n r IH]; intros ex s Hb; cbn; [reflexivity|].
+  destruct (Hb n (or_introl eq_refl)) as [Hin Hn]. rewrite (mem_id_In _ _ Hin). cbn. unfold bound in Hn.
+  destruct (ns_get (GB n) s); [apply IH; intros x Hx; apply Hb; right; exact Hx | contradiction].
+Qed.
+Lemma bind_exports_some : forall i ex s, (forall n, In n ex -> bound (GB n) s) ->
+  (forall l n, i_form i = FSymbols l -> In n l -> In n ex) ->
+  exists s', bind_exports i ex s = Some s' /\ nsmono s s'.
+Proof.
+  intros i ex s Hb Hsy. unfold bind_exports. destruct (i_form i) as [|a|l|] eqn:Ef.
+  - apply bind_all_some; exact Hb.
+  - apply bind_all_some; exact Hb.
+  - rewrite check_syms_true; [exists s; split; [reflexivity | intros g Hg; exact Hg]|].
+    intros n Hn. split; [eapply Hsy; eauto | apply Hb; eapply Hsy; eauto].
+  - rewrite check_all_true by exact Hb. exists s; split; [reflexivity | intros g Hg; exact Hg].
+Qed.
+
+Hypothesis HC : clean fs E.
+
+Definition ninv (st : lstate) : Prop :=
+  forall k info, lookup k (loaded st) = Some info -> ~ In k (stack st) ->
+                 forall n, In n (mi_exports info) -> bound (GB n) (ns st).
+
+Definition epost {A} (st : lstate) (r : res (lstate * A)) : Prop :=
+  match r with
+  | Ok (st', _) => ninv st' /\ nsmono (ns st) (ns st')
+  | Err e _ => e = ECircular
+  | Fuel => True
+  end.
+
+Definition egood (ld : loader) : Prop :=
+  forall cur m i st, reachable fs E cur -> find_file fs cur = Some m -> In i (m_imports m) ->
+                     inv st -> base st = dir_of cur -> ninv st -> epost st (ld i st).
+
+Lemma go_mod_e : forall ld file m, vgood ld -> egood ld -> reachable fs E file -> find_file fs file = Some m ->
+  forall imps s acc, incl imps (m_imports m) -> inv s -> base s = dir_of file -> ninv s ->
+  epost s (go_mod ld imps s acc).
+Proof.
+  intros ld file m Hv He Hr Hm imps; induction imps as [|j r IH]; intros s acc Hincl Hinv Hb Hn; cbn.
+  - split; [exact Hn | intros g Hg; exact Hg].
+  - pose proof (Hv file m j s Hr Hm (Hincl j (or_introl eq_refl)) Hinv Hb) as Hvj.
+    pose proof (He file m j s Hr Hm (Hincl j (or_introl eq_refl)) Hinv Hb Hn) as Hej.
+    destruct (ld j s) as [[s' lr]| |]; cbn in *; auto.
+    destruct Hvj as ((Hi' & Hs' & Hb' & _) & _). destruct Hej as [Hn' Hmono].
+    pose proof (IH s' (contrib_mod acc j lr (loaded s')) (fun x Hx => Hincl x (or_intror Hx)) Hi' (eq_trans Hb' Hb) Hn') as Hrest.
+    destruct (go_mod ld r s' (contrib_mod acc j lr (loaded s'))) as [[s2 a2]| |]; cbn in *; auto.
+    destruct Hrest as [Hn2 Hm2]. split; [exact Hn2 | intros g Hg; apply Hm2, Hmono, Hg].
+Qed.
+
+Lemma compile_e : forall ld cur mc i g mg st,
+  vgood ld -> egood ld -> reachable fs E cur -> find_file fs cur = Some mc -> In i (m_imports mc) ->
+  is_std (i_path i) = false -> i_path i <> [] -> inv st -> base st = dir_of cur -> ninv st ->
+  ~ In (i_path i) (stack st) -> lookup (i_path i) (loaded st) = None ->
+  target fs cur i = Some g -> find_file fs g = Some mg ->
+  (forall l s, i_form i = FSymbols l -> In s l -> In s (pub_names mg)) ->
+  epost st (compile ld g (i_path i) None i mg st).
+Proof.
+  intros ld cur mc i g mg st Hv He Hr Hmc Hi Hstd Hne Hinv Hb Hn Emem El Htgt Hmg Hsy.
+  pose proof (push_inv cur mc i g mg st Hr Hmc Hi Hstd Hinv Emem El Htgt Hmg) as Hinv1.
+  unfold compile.
+  set (info := {| mi_file := g; mi_exports := pub_names mg; mi_name := _ |}) in *.
+  set (st1 := {| loaded := (i_path i, info) :: loaded st; stack := i_path i :: stack st;
+                 base := dir_of g; ns := ns st; events := events st |}) in *.
+  assert (Hrg : reachable fs E g) by (eapply r_step; [exact Hr | exists mc, i; auto]).
+  assert (Hn1 : ninv st1).
+  { intros k inf Hl Hk n Hin. unfold st1 in *; cbn in *.
+    destruct (key_eqb k (i_path i)) eqn:Ek.
+    - apply key_eqb_eq in Ek; subst k. exfalso; apply Hk; left; reflexivity.
+    - eapply Hn; eauto. }
+  pose proof (go_mod_e ld g mg Hv He Hrg Hmg (m_imports mg) st1 ([], []) (fun x Hx => Hx) Hinv1 eq_refl Hn1) as Hge.
+  pose proof (go_mod_v ld g mg Hv Hrg Hmg (m_imports mg) [] st1 ([], []) eq_refl Hinv1 eq_refl
+                (fun j Hj => match Hj with end) (fun _ => names_spec_nil _)) as Hgv.
+  destruct (go_mod ld (m_imports mg) st1 ([], [])) as [[st2 acc]| |]; cbn in Hge; auto.
+  destruct Hge as [Hn2 Hmono2]. destruct Hgv as ((Hi2 & Hs2 & _ & Hm2 & _) & _).
+  set (s1 := write_defs g mg (ns st2)).
+  destruct (bind_exports_some i (pub_names mg) s1) as (s2 & Hs2' & Hmono3).
+  { intros n Hin. destruct (pub_names_defs _ _ Hin) as (d & Hd & <-). apply write_defs_binds; exact Hd. }
+  { exact Hsy. }
+  rewrite Hs2'. cbn.
+  assert (Hw : nsmono (ns st2) s1) by apply write_defs_fold_mono.
+  split.
+  - intros k inf Hl Hk n Hin. cbn in Hl, Hk |- *. rewrite Hs2 in Hk. cbn in Hk.
+    destruct (key_eqb k (i_path i)) eqn:Ek.
+    + apply key_eqb_eq in Ek; subst k.
+      assert (Hlp : lookup (i_path i) (loaded st2) = Some info) by (apply Hm2; cbn; apply lookup_cons_eq).
+      rewrite Hlp in Hl; inversion Hl; subst inf. cbn in Hin.
+      apply Hmono3. destruct (pub_names_defs _ _ Hin) as (d & Hd & <-). apply write_defs_binds; exact Hd.
+    + apply Hmono3, Hw. eapply Hn2; eauto. rewrite Hs2. cbn. intros [Heq|Hin']; [| contradiction].
+      apply key_eqb_neq in Ek. congruence.
+  - intros x Hx. apply Hmono3, Hw, Hmono2. exact Hx.
+Qed.
+
+Lemma load_step_e : forall ld, vgood ld -> egood ld -> egood (load_step fs ld).
+Proof.
+  intros ld Hv He cur mc i st Hr Hmc Hi Hinv Hb Hn. unfold load_step. cbv zeta.
+  remember (i_path i) as p eqn:Ep in |- *. symmetry in Ep.
+  destruct (is_std p) eqn:Estd.
+  { destruct p; [discriminate|]. cbn. split; [exact Hn | intros g Hg; exact Hg]. }
+  assert (Hstd : is_std (i_path i) = false) by (rewrite Ep; exact Estd).
+  destruct (HC cur mc i Hr Hmc Hi Hstd) as (Hne & g & mg & Ht & Hmg & Hsy).
+  destruct p as [|x p']; [congruence|].
+  pose proof (imp_of_file cur mc i Hmc Hi Hstd) as Himp.
+  destruct (mem_key (x :: p') (stack st)) eqn:Emem; [reflexivity|].
+  apply mem_key_false in Emem.
+  destruct (lookup (x :: p') (loaded st)) as [info|] eqn:El.
+  - destruct (v_key _ Hinv _ _ El) as (f' & i' & Hr' & Himp' & Hp' & Ht').
+    assert (Hfile : mi_file info = g).
+    { assert (target fs cur i = target fs f' i') by (apply HF; auto; congruence). congruence. }
+    destruct (v_info _ Hinv _ _ El) as (m' & Hm' & Hex). rewrite Hfile, Hmg in Hm'. inversion Hm'; subst m'.
+    destruct (bind_exports_some i (mi_exports info) (ns st)) as (s' & Hs' & Hmono).
+    { intros n Hin. eapply Hn; eauto. }
+    { intros l n Hf Hin. rewrite Hex. eapply Hsy; eauto. }
+    rewrite Hs'. cbn. split; [| exact Hmono].
+    intros k inf Hl Hk n Hin. apply Hmono. eapply Hn; eauto.
+  - rewrite Hb. pose proof Ht as Ht0. unfold target in Ht. rewrite Hstd, Ep in Ht.
+    destruct (resolve_fb fs (dir_of cur) (x :: p')) as [[[file actual] sym]|] eqn:Er; [| discriminate].
+    inversion Ht; subst file. rewrite <- Ep in Er. pose proof (HP cur i Himp _ _ _ Er) as ->.
+    pose proof Er as Er'. apply resolve_fb_shape in Er' as [_ [[-> _]|[_ Hbad]]]; [| discriminate].
+    rewrite Hmg. rewrite <- Ep in *.
+    eapply compile_e; eauto.
+Qed.
+
+Lemma load_e : forall n, egood (load fs n).
+Proof.
+  induction n as [|n IH]; [intros cur m i st _ _ _ _ _ _; exact I|].
+  cbn [load]. apply load_step_e; [apply load_v | exact IH].
+Qed.
+
+Lemma entry_go_e : forall n me, find_file fs E = Some me ->
+  forall imps s acc orig, incl imps (m_imports me) -> inv s -> base s = dir_of E -> ninv s ->
+  match entry_go fs n imps s acc orig with
+  | Err e _ => e = ECircular \/ e = ESymbolConflict
+  | _ => True
+  end.
+Proof.
+  intros n me Hme imps; induction imps as [|j r IH]; intros s acc orig Hincl Hinv Hb Hn; cbn; [exact I|].
+  pose proof (load_v n E me j s (r_refl fs E) Hme (Hincl j (or_introl eq_refl)) Hinv Hb) as Hvj.
+  pose proof (load_e n E me j s (r_refl fs E) Hme (Hincl j (or_introl eq_refl)) Hinv Hb Hn) as Hej.
+  destruct (load fs n j s) as [[s' lr]| |]; cbn in *; auto.
+  destruct Hvj as ((Hi' & Hs' & Hb' & _) & _). destruct Hej as [Hn' _].
+  destruct (contrib_entry acc orig j lr (loaded s')) as [[acc' orig']|]; [| right; reflexivity].
+  apply IH; auto. - intros x Hx; apply Hincl; right; exact Hx. - congruence.
+Qed.
+
+Lemma run_err_kind : forall fuel e tr, run fs E fuel = Err e tr -> find_file fs E <> None ->
+  e = ECircular \/ e = ESymbolConflict.
+Proof.
+  intros fuel e tr. unfold run. destruct (find_file fs E) as [me|] eqn:Hme; [| intros _ H; contradiction].
+  pose proof (entry_go_e fuel me Hme (m_imports me) (init_state E) ([], []) [] (fun x Hx => Hx) init_inv eq_refl) as Hg.
+  destruct (entry_go fs fuel (m_imports me) (init_state E) ([], []) []) as [[st acc]| |]; try discriminate.
+  intros H _; inversion H; subst. apply Hg. intros k info Hl; discriminate.
+Qed.
+
+(* compile-time name sets of every top level that ran *)
+Local Notation entry_names_ok := (ModulesSpec.entry_names_ok fs E).
+
+Lemma run_names : forall fuel evs me, run fs E fuel = Ok evs -> find_file fs E = Some me ->
+  exists evs0 ev, evs = evs0 ++ [ev] /\ ev_file ev = E /\ ev_key ev = [] /\
+    (forall e, In e evs0 -> ev_ok_mod e) /\
+    (no_std_imports me -> nonempty_symbols me -> entry_names_ok me ev).
+Proof.
+  intros fuel evs me. unfold run. intros Hrun Hme. rewrite Hme in Hrun.
+  pose proof (entry_go_v fuel me Hme (m_imports me) [] (init_state E) ([], []) [] eq_refl init_inv eq_refl
+                (fun j Hj => match Hj with end) (fun _ _ => names_spec_nil _)) as Hg.
+  destruct (entry_go fs fuel (m_imports me) (init_state E) ([], []) []) as [[st acc]| |]; try discriminate.
+  destruct Hg as ((Hinv & _ & _ & _ & _) & _ & Hnames).
+  inversion Hrun; subst evs; clear Hrun.
+  eexists. eexists. split; [reflexivity|]. cbn [ev_file ev_key]. split; [reflexivity|]. split; [reflexivity|].
+  split; [apply (v_evs _ Hinv)|].
+  intros Hns Hne. destruct (Hnames Hns Hne) as [HA HK]. split; cbn [ev_aliases ev_known]; [exact HA|].
+  intro n. rewrite in_app_iff, HK. reflexivity.
 Qed.
 End Dfs.
 
@@ -590,6 +969,26 @@ Proof.
   eapply run_trace; eauto.
 Qed.
 
+Lemma visibility_lemma : forall fs E fuel evs me, keys_ok fs = true ->
+  run fs E fuel = Ok evs -> find_file fs E = Some me ->
+  exists evs0 ev, evs = evs0 ++ [ev] /\ ev_file ev = E /\ ev_key ev = [] /\
+    (forall e, In e evs0 -> ev_ok_mod fs e) /\
+    (no_std_imports me -> nonempty_symbols me -> entry_names_ok fs E me ev).
+Proof.
+  intros fs E fuel evs me Hk Hrun Hme. destruct (keys_ok_sound fs Hk) as (HP & HF & HI).
+  eapply run_names; eauto.
+Qed.
+
+(* with one selected symbol per `needs .. from ..` a module gets exactly what the entry would *)
+Lemma nested_eq_single : forall fs f m j, single_symbols m -> In j (m_imports m) ->
+  granted_bare_nested fs f j = granted_bare fs f j.
+Proof.
+  intros fs f m j Hs Hj. unfold granted_bare_nested, granted_bare.
+  destruct (target fs f j); [| reflexivity]. destruct (find_file fs f0); [| reflexivity].
+  destruct (i_form j) as [|a|l|] eqn:Ef; try reflexivity.
+  destruct (Hs j l Hj Ef) as [x ->]. reflexivity.
+Qed.
+
 Lemma cycle_never_ok_lemma : forall fs E fuel f, keys_ok fs = true ->
   reachable fs E f -> path_plus fs f f -> forall evs, run fs E fuel <> Ok evs.
 Proof.
@@ -605,6 +1004,47 @@ Proof.
   - exfalso. eapply cycle_never_ok_lemma; eauto.
   - eauto.
   - exfalso. eapply no_divergence_lemma; eauto.
+Qed.
+
+(* ---- error kind *)
+Lemma mem_id_true_In : forall n l, mem_id n l = true -> In n l.
+Proof.
+  induction l as [|x l IH]; cbn; [discriminate|]. intro H. apply orb_true_iff in H as [H|H].
+  - apply N.eqb_eq in H; auto.
+  - auto.
+Qed.
+
+Lemma clean_b_sound : forall fs E, clean_b fs = true -> clean fs E.
+Proof.
+  intros fs E Hc f m i _ Hm Hi Hstd. unfold clean_b in Hc. rewrite forallb_forall in Hc.
+  apply lookup_In in Hm. apply Hc in Hm. cbn in Hm. rewrite forallb_forall in Hm. apply Hm in Hi.
+  rewrite Hstd in Hi. cbn in Hi. apply andb_true_iff in Hi as [Hne Hi].
+  split; [destruct (i_path i); [discriminate | discriminate]|].
+  destruct (target fs f i) as [g|]; [| discriminate]. destruct (find_file fs g) as [mg|] eqn:Eg; [| discriminate].
+  exists g, mg. split; [reflexivity|]. split; [exact Eg|].
+  intros l s Hf Hs. rewrite Hf in Hi. rewrite forallb_forall in Hi. apply mem_id_true_In, Hi, Hs.
+Qed.
+
+Lemma reach_src : forall fs E f, reachable fs E f -> f = E \/ find_file fs E <> None.
+Proof.
+  intros fs E f Hr; induction Hr as [|g h Hr IH He]; [left; reflexivity|].
+  destruct IH as [->|IH]; [| right; exact IH]. destruct He as (m & i & Hm & _). right; congruence.
+Qed.
+Lemma pp_src : forall fs f g, path_plus fs f g -> find_file fs f <> None.
+Proof.
+  intros fs f g Hp; induction Hp as [f g He | f g h Hp IH He]; [| exact IH].
+  destruct He as (m & i & Hm & _). congruence.
+Qed.
+
+Lemma cycle_circular_lemma : forall fs E fuel f, keys_ok fs = true -> clean fs E ->
+  (fuel >= fuel_bound fs)%nat -> reachable fs E f -> path_plus fs f f ->
+  exists tr, run fs E fuel = Err ECircular tr \/ run fs E fuel = Err ESymbolConflict tr.
+Proof.
+  intros fs E fuel f Hk Hc Hf Hr Hp. destruct (keys_ok_sound fs Hk) as (HP & HF & HI).
+  destruct (cycle_reported_lemma fs E fuel f Hk Hf Hr Hp) as (e & tr & Hrun).
+  assert (HE : find_file fs E <> None).
+  { destruct (reach_src fs E f Hr) as [->|H]; [eapply pp_src; eauto | exact H]. }
+  exists tr. destruct (run_err_kind fs E HP HF HI Hc fuel e tr Hrun HE) as [->| ->]; auto.
 Qed.
 
 (* ---- the flat case: every file in the entry's directory, single-segment imports *)
@@ -672,21 +1112,9 @@ Proof.
 Qed.
 
 (* ================================================================ witnesses (computation) *)
-Definition imp (p : key) (f : form) : import := {| i_path := p; i_form := f |}.
-Definition D (n : ident) (b : bool) : def := {| d_name := n; d_pub := b |}.
-Definition M (is : list import) (ds : list def) : module := {| m_imports := is; m_defs := ds |}.
-Definition E9 : fpath := [9].
-
 Ltac solve_edge :=
   eexists; eexists; split; [vm_compute; reflexivity | split; [cbn; eauto 10 | vm_compute; reflexivity]].
 
-(* two directories (20, 21), each with its own file 12, each imported as `needs n12` from its own directory *)
-Definition w_collision : fsys :=
-  [ ([9], M [imp [20;10] (FAlias 70); imp [21;11] (FAlias 71)] []);
-    ([20;10], M [imp [12] FModule] [D 30 true]);
-    ([21;11], M [imp [12] FModule] [D 34 true]);
-    ([20;12], M [] [D 40 true; D 41 true]);
-    ([21;12], M [] [D 40 true; D 42 true]) ].
 
 Lemma key_collision_refuted_lemma : exists fs E evs ev,
   run fs E (fuel_bound fs) = Ok evs /\
@@ -703,11 +1131,6 @@ Proof.
   vm_compute. repeat split; reflexivity.
 Qed.
 
-(* a/x imported as a.x by the entry and as x by a/y *)
-Definition w_twokeys : fsys :=
-  [ ([9], M [imp [20;10] (FAlias 70); imp [20;11] (FAlias 71)] []);
-    ([20;10], M [] [D 30 true]);
-    ([20;11], M [imp [10] FModule] [D 34 true]) ].
 
 Lemma one_file_two_keys_refuted_lemma : exists fs E evs,
   run fs E (fuel_bound fs) = Ok evs /\ map ev_file evs = [[20;10]; [20;10]; [20;11]; [9]] /\
@@ -716,12 +1139,6 @@ Proof.
   exists w_twokeys, E9. eexists. split; [vm_compute; reflexivity|]. vm_compute. repeat split; reflexivity.
 Qed.
 
-(* one directory; 10 has pub 40, 11 a PRIVATE 40; 12 imports 10 (alias 73) after 11 ran *)
-Definition w_flatns : fsys :=
-  [ ([9], M [imp [10] (FAlias 70); imp [11] (FAlias 71); imp [12] (FAlias 72)] []);
-    ([10], M [] [D 40 true]);
-    ([11], M [] [D 40 false; D 45 true]);
-    ([12], M [imp [10] (FAlias 73)] [D 46 true]) ].
 
 Lemma flat_namespace_collision_refuted_lemma : exists fs E evs ev,
   flat fs = true /\ keys_ok fs = true /\ run fs E (fuel_bound fs) = Ok evs /\
@@ -734,11 +1151,6 @@ Proof.
   vm_compute. repeat split; reflexivity.
 Qed.
 
-(* 10 `needs n11.n44`, 11 `needs n10.n40` *)
-Definition w_pscycle : fsys :=
-  [ ([9], M [imp [10] FModule] []);
-    ([10], M [imp [11;44] FModule] [D 40 true]);
-    ([11], M [imp [10;40] FModule] [D 44 true]) ].
 
 Lemma cycle_reported_refuted_lemma : exists fs E evs,
   flat fs = false /\ keys_ok fs = false /\
@@ -751,10 +1163,6 @@ Proof.
   split; vm_compute; reflexivity.
 Qed.
 
-(* `needs n10` then `needs n10.n42`, 42 private *)
-Definition w_leak : fsys :=
-  [ ([9], M [imp [10] FModule; imp [10;42] FModule] []);
-    ([10], M [] [D 40 true; D 42 false]) ].
 
 Lemma private_leak_refuted_lemma : exists fs E evs ev m,
   run fs E (fuel_bound fs) = Ok evs /\ In ev evs /\ ev_file ev = E /\
@@ -767,11 +1175,6 @@ Proof.
   vm_compute; reflexivity.
 Qed.
 
-(* `needs n40, n42 from n10` in the entry and in module 11 *)
-Definition w_second : fsys :=
-  [ ([9], M [imp [11] FModule; imp [10] (FSymbols [40;42])] []);
-    ([11], M [imp [10] (FSymbols [40;42])] [D 46 true]);
-    ([10], M [] [D 40 true; D 42 true]) ].
 
 Lemma nested_second_symbol_refuted_lemma : exists fs E evs ev ev',
   flat fs = true /\ keys_ok fs = true /\ unique_defs fs = true /\
@@ -790,10 +1193,6 @@ Proof.
   split; vm_compute; reflexivity.
 Qed.
 
-(* `needs n40 from n10`: n10.n40 and n99.n40 work *)
-Definition w_qual : fsys :=
-  [ ([9], M [imp [10] (FSymbols [40])] []);
-    ([10], M [] [D 40 true]) ].
 
 Lemma qualifier_dropped_refuted_lemma : exists fs E evs ev,
   flat fs = true /\ keys_ok fs = true /\ unique_defs fs = true /\
@@ -810,13 +1209,6 @@ Proof.
   split; vm_compute; reflexivity.
 Qed.
 
-(* 13 imports 11 as 70, 12 imports 10 as 70 *)
-Definition w_shared_q : fsys :=
-  [ ([9], M [imp [13] FModule; imp [12] FModule] []);
-    ([13], M [imp [11] (FAlias 70)] [D 50 true]);
-    ([12], M [imp [10] (FAlias 70)] [D 46 true]);
-    ([10], M [] [D 40 true]);
-    ([11], M [] [D 44 true]) ].
 
 Lemma shared_qualifier_refuted_lemma : exists fs E evs ev,
   flat fs = true /\ keys_ok fs = true /\ unique_defs fs = true /\
@@ -832,37 +1224,19 @@ Proof.
   vm_compute. repeat split; reflexivity.
 Qed.
 
-(* non-vacuity: a flat diamond with all import forms initialises in post-order; a 6-cycle behind a
-   tail is reported, with the minimal fuel bound *)
-Definition w_diamond : fsys :=
-  [ ([9], M [imp [10] FModule; imp [11] (FAlias 71); imp [12] (FSymbols [38]); imp [1;0] (FAlias 77)] [D 60 true]);
-    ([10], M [imp [19] (FAlias 75)] [D 30 true; D 31 false]);
-    ([11], M [imp [19] (FSymbols [66])] [D 34 true]);
-    ([12], M [imp [19] FWildcard; imp [10] FModule] [D 38 true]);
-    ([19], M [] [D 66 true; D 67 false]) ].
 
-Definition w_cycle6 : fsys :=
-  [ ([9], M [imp [10] FModule] []);
-    ([10], M [imp [11] (FAlias 70)] [D 30 true]);
-    ([11], M [imp [12] FModule] [D 34 true]);
-    ([12], M [imp [13] (FSymbols [42])] [D 38 true]);
-    ([13], M [imp [14] FWildcard] [D 42 true]);
-    ([14], M [imp [15] FModule] [D 46 true]);
-    ([15], M [imp [16] FModule] [D 50 true]);
-    ([16], M [imp [19] FModule; imp [11] (FAlias 71)] [D 54 true]);
-    ([19], M [] [D 66 true]) ].
 
 Lemma nonvacuous_lemma :
   flat w_diamond = true /\ keys_ok w_diamond = true /\
   (exists evs, run w_diamond E9 (fuel_bound w_diamond) = Ok evs /\
                map ev_file evs = [[19]; [10]; [11]; [12]; [9]]) /\
-  flat w_cycle6 = true /\ keys_ok w_cycle6 = true /\
+  flat w_cycle6 = true /\ keys_ok w_cycle6 = true /\ clean_b w_cycle6 = true /\
   reachable w_cycle6 E9 [11] /\ path_plus w_cycle6 [11] [11] /\
   (exists tr, run w_cycle6 E9 (fuel_bound w_cycle6) = Err ECircular tr /\ map ev_file tr = [[19]]).
 Proof.
   split; [reflexivity|]. split; [reflexivity|].
   split. { eexists. split; vm_compute; reflexivity. }
-  split; [reflexivity|]. split; [reflexivity|].
+  split; [reflexivity|]. split; [reflexivity|]. split; [reflexivity|].
   split. { eapply r_step; [eapply r_step; [apply r_refl | solve_edge] | solve_edge]. }
   split. { eapply pp_step; [eapply pp_step; [eapply pp_step; [eapply pp_step; [eapply pp_step;
            [apply pp_one; solve_edge | solve_edge] | solve_edge] | solve_edge] | solve_edge] | solve_edge]. }
